@@ -12,6 +12,8 @@ NA = {
  "C16": "decision lives in methods of ContentPackCreator which cannot be constructed without spawning threads; detect branch is floating point; dedup adder is HashMap<blake3::Hash,_> (DESIGN.md section 5)",
 }
 TEXT = {
+ "C06": ("Bounded model checking, under debug and release semantics, of the code that runs before or without a checksum: assert_slice_crc on buffers shorter than a checksum, the real blind open end to end on every memory file shorter than one block, the blind open's own arithmetic and control flow for the header-at-start branch with the file length and the declared pack size fully symbolic (u64), PackHeader::parse on 60 arbitrary bytes, and region arithmetic under the callers' precondition. Every panic, overflow or out-of-bounds index on these paths is a failed check; counterexamples are replayed natively in the matching profile. Narrow by design: parsers that only see CRC-verified bytes are outside the property's scope.",
+         "4 C06", "Kani/CBMC models debug/release semantics (debug assertions, overflow checks), not optimiser behaviour; the two header parses of the glue harness are replaced by nondeterministic results; FileSource/mmap (FFI), the mirrored-tail branch of the blind open and the background decoder (rayon: abort on decoder error, endless wait on short output - both real, see DESIGN.md) are outside"),
  "C05": ("Bounded model checking of (1) the real table-driven CRC code against a bitwise CRC-32C reference over all blocks of 1-2 (thorough: 4) data bytes, (2) the real writer (Serializer::close / write_serializer) producing exactly that checksum in big endian after the data, (3) single-byte alterations never accepted, and (4) every block-reading entry point of Reader / ArrayReader / ValueStore run with a checksum oracle that records the range it is asked about: Ok only if exactly [offset, offset+size+4) was verified and accepted, rejection surfaces as Corrupted. Removing a verification or checking the wrong range changes no test outcome but fails (4); a parameter change of the CRC fails (1)/(2).",
          "4 C05", "Kani/CBMC; memory source stands for the file source; block lengths bounded as stated; oracle stub is used only in the site harnesses"),
  "C14": ("Differential bounded model checking against a reference codec written in the harness from the pinned layout: the real primitive writers/readers (u8..u64, usized/isized of every width, data) equal little-endian reference encode/decode; every header structure (PackHeader with its version gate, content/directory/manifest/container headers, PackLocator, SizedOffset, CheckInfo, plus cluster tail, index tail, value-store tails and property definitions in C01/C02) is checked in both directions (writer field sequence == layout, reader(reference bytes) == fields) with all field values symbolic, so a change applied symmetrically to writer and reader is caught.",
